@@ -5,6 +5,7 @@ import (
 	"encoding/json"
 	"fmt"
 	"github.com/siglens/siglens/pkg/segment/reader/metrics/series"
+	"github.com/siglens/siglens/pkg/segment/reader/microreader"
 	"github.com/siglens/siglens/pkg/segment/structs"
 	"math"
 	"os"
@@ -51,6 +52,7 @@ type e2eObs struct {
 	Stage  string          `json:"stage"`
 	Series map[string][]pt `json:"series"` // canonical series (name{k="v",...} with sorted keys) -> points
 	Errs   []string        `json:"errs"`
+	Meta   []string        `json:"meta,omitempty"` // block-summary problems found after the WAL replay
 }
 
 // "cpu{host:v1,zone:v2," -> cpu{host="v1",zone="v2"}
@@ -267,6 +269,7 @@ func workerMain(args []string) {
 						o.Errs = append(o.Errs, fmt.Sprintf("block %d: %v", blk, err))
 						continue
 					}
+					blkLo, blkHi, blkN := uint32(math.MaxUint32), uint32(0), 0
 					for _, s := range h.Series {
 						th := metrics.GetTagsHolder()
 						for _, t := range s.Tags {
@@ -287,6 +290,33 @@ func workerMain(args []string) {
 						for itr.Next() {
 							t, v := itr.At()
 							o.Series[selector(s)] = append(o.Series[selector(s)], pt{t, math.Float64bits(v)})
+							blkN++
+							if t < blkLo {
+								blkLo = t
+							}
+							if t > blkHi {
+								blkHi = t
+							}
+						}
+					}
+					// the query path finds a block through the block summaries of its segment (<segkey>.mbsu):
+					// the block must be listed there under its own number with a time range covering its datapoints
+					if blkN > 0 {
+						sums, err := microreader.ReadMetricsBlockSummaries(segKey + ".mbsu")
+						if err != nil {
+							o.Meta = append(o.Meta, fmt.Sprintf("block summaries of %s unreadable: %v", filepath.Base(segKey), err))
+						} else {
+							listed, covered := []string{}, false
+							for _, bs := range sums {
+								listed = append(listed, fmt.Sprintf("%d:[%d,%d]", bs.Blknum, bs.LowTs, bs.HighTs))
+								if bs.Blknum == blk && bs.LowTs <= blkLo && bs.HighTs >= blkHi {
+									covered = true
+								}
+							}
+							if !covered {
+								o.Meta = append(o.Meta, fmt.Sprintf("block %d of segment %s holds %d datapoints in [%d,%d] but the segment's block summaries list %v",
+									blk, filepath.Base(segKey), blkN, blkLo, blkHi, listed))
+							}
 						}
 					}
 				}
@@ -477,6 +507,9 @@ func walCrashPart(cfg vhlib.Config, sum *vhlib.Summary, r *vhlib.Rng) {
 			}
 			sum.HarnessError("walcrash: " + es)
 			continue
+		}
+		for _, mp := range o[0].Meta {
+			sum.Fail("metrics_wal_recovery_block_not_listed_in_block_summaries", mp+" (blocks are found by queries through these summaries)", map[string]interface{}{"history": h})
 		}
 		for si := range h.Series {
 			want := expected(h, si, 1)
